@@ -1694,12 +1694,13 @@ fn find(cdf: &[u128], q: u128) -> usize {
 /// Reference chunking for C14, written on bit lists with provenance instead of word
 /// arithmetic: which bits of which data word make up the i-th quantile.  `words` is the
 /// compressed stack in `Vec` order; each quantile is a list of `(word index, bit index)`,
-/// most significant bit first.  Stops when the data runs out.
-fn reference_chunks(words_len: usize, w: u32, p: u32, n: usize) -> Vec<Vec<(usize, u32)>> {
+/// most significant bit first; `precs[i]` is the precision in force for the i-th symbol.
+/// Stops when the data runs out.
+fn reference_chunks(words_len: usize, w: u32, precs: &[u32]) -> Vec<Vec<(usize, u32)>> {
     let mut out = Vec::new();
     let mut buf: Vec<(usize, u32)> = Vec::new(); // leftover bits below the marker, msb first
     let mut next = words_len; // index of the next word to pop + 1
-    for _ in 0..n {
+    for &p in precs {
         if p == w || (buf.len() as u32) < p {
             if next == 0 {
                 break;
@@ -1714,6 +1715,8 @@ fn reference_chunks(words_len: usize, w: u32, p: u32, n: usize) -> Vec<Vec<(usiz
                 buf.extend_from_slice(&bits[..(w - p) as usize]);
             }
         } else {
+            // the `p` least significant leftover bits; precision changes in between do not
+            // touch the buffer
             let at = buf.len() - p as usize;
             out.push(buf.split_off(at));
         }
@@ -1734,6 +1737,294 @@ fn describe<C: ChainPrec>(p0: u32, from_bin: bool, data: &[u128]) -> String {
         if from_bin { "binary" } else { "compressed" },
         show_list(data.iter().copied())
     )
+}
+
+/// one step of a C14 schedule as it actually ran on the unmodified data
+#[derive(Clone)]
+enum Rec {
+    Dec { p: u32, b: u32, cdf: Vec<u128> },
+    Cp { q: u32, ok: bool },
+}
+
+fn c14_line<C: ChainPrec>(p0: u32, from_bin: bool, data: &[u128], script: &[Rec]) -> String {
+    let mut t = describe::<C>(p0, from_bin, data);
+    for r in script {
+        match r {
+            Rec::Dec { p, b, cdf } => t.push_str(&format!(" | dec {:x} {:x} {}", p, b, show_list(cdf.clone()))),
+            Rec::Cp { q, .. } => t.push_str(&format!(" | cp {:x}", q)),
+        }
+    }
+    t
+}
+
+/// Re-runs a recorded schedule on `start`.  `Ok((symbols, ran_out))`; `Err("diverged")` if a
+/// precision change succeeds/fails differently than recorded (it depends on the remainders
+/// side, so the comparison is void); any other `Err` is a panic class / unexpected answer.
+fn c14_rerun<C: ChainPrec>(start: &Dyn<C::W, C::S>, script: &[Rec], rep: &mut Report) -> Result<(Vec<usize>, bool), String> {
+    let mut d = start.clone();
+    let mut syms = Vec::new();
+    for r in script {
+        match r {
+            Rec::Dec { p, b, cdf } => {
+                if d.p != *p {
+                    return Err("diverged".into());
+                }
+                rep.eval("C10");
+                rep.eval("C20");
+                match guarded(|| C::dec(&mut d, *b, cdf).unwrap()) {
+                    Err(class) => return Err(class.to_string()),
+                    Ok(o) if o == "out_of_data" => return Ok((syms, true)),
+                    Ok(o) => match parse_hex(&o) {
+                        Some(x) => syms.push(x as usize),
+                        None => return Err(o),
+                    },
+                }
+            }
+            Rec::Cp { q, ok } => match guarded(|| C::cp(&mut d, 0, *q).unwrap()) {
+                Err(class) => return Err(class.to_string()),
+                Ok(o) => {
+                    if (o == "ok") != *ok {
+                        return Err("diverged".into());
+                    }
+                }
+            },
+        }
+    }
+    Ok((syms, false))
+}
+
+/// C14: the i-th symbol is what model i assigns to the i-th chunk of the data, the chunks
+/// being computed from the data alone by `reference_chunks` (bit lists with provenance, in the
+/// documented consumption order) – for schedules with constant precision and with
+/// `change_precision` between symbols.  Then: another model at position j changes at most
+/// symbol j; flipping bits of chunk j changes at most symbol j (to what the model assigns to
+/// the new chunk); flipping bits that belong to no consumed chunk changes nothing; none of
+/// these changes whether or when the data runs out.
+fn oracle_locality<C: ChainPrec>(rng: &mut Rng, bps: &[(u32, Vec<u32>)], rep: &mut Report) {
+    let (w, s) = (C::WBITS, C::SBITS);
+    let precs = union_precs(bps);
+    let mut g = GenCtx { w, s, bps, precs: precs.clone(), cdfs: Default::default() };
+    // small precisions leave more than `p` bits in the buffer: prefer them half of the time
+    let small: Vec<u32> = precs.iter().copied().filter(|&p| 2 * p <= w).collect();
+    let pick_p = |rng: &mut Rng| -> u32 {
+        if !small.is_empty() && rng.chance(1, 2) {
+            *rng.pick(&small)
+        } else {
+            *rng.pick(&precs)
+        }
+    };
+    let p0 = pick_p(rng);
+    let from_bin = rng.chance(1, 2);
+    let mixed = rng.chance(1, 2); // with `change_precision` between symbols
+    let nsteps = (rng.next() % 28) as usize;
+    let head_words = ((s - w - p0) + w - 1) / w + (!from_bin) as u32;
+    let avg_p = if mixed { (w / 2).max(1) } else { p0 } as usize;
+    let need = head_words as usize + (nsteps * avg_p + w as usize - 1) / w as usize;
+    let len = match rng.next() % 4 {
+        0 => rng.below(need as u128 + 2) as usize,
+        _ => need + (rng.next() % 3) as usize,
+    };
+    let style = rng.next() % 6;
+    let mut data: Vec<u128> = (0..len)
+        .map(|_| match style {
+            0 => 0,
+            1 => pow2(w) - 1,
+            _ => rng.below(pow2(w)),
+        })
+        .collect();
+    if !from_bin {
+        match data.last_mut() {
+            Some(l) => {
+                if *l == 0 {
+                    *l = 1;
+                }
+            }
+            None => data.push(1),
+        }
+    }
+    let kind = if from_bin { 0 } else { 1 };
+    let d0 = match C::ctor(kind, p0, words::<C::W>(&data)).unwrap() {
+        Ok(d) => d,
+        Err(()) => return,
+    };
+    // ---- base run: builds the script as it goes
+    let mut script: Vec<Rec> = Vec::new();
+    let mut syms: Vec<usize> = Vec::new();
+    let mut ran_out = false;
+    {
+        let mut d = d0.clone();
+        for _ in 0..nsteps {
+            if mixed && rng.chance(1, 4) {
+                let q = if rng.chance(1, 2) { pick_p(rng) } else { *rng.pick(&precs) };
+                let o = guarded(|| C::cp(&mut d, 0, q).unwrap());
+                match o {
+                    Ok(o) => script.push(Rec::Cp { q, ok: o == "ok" }),
+                    Err(class) => {
+                        script.push(Rec::Cp { q, ok: false });
+                        rep.fail("C14", format!("{} => {}", c14_line::<C>(p0, from_bin, &data, &script), class));
+                        return;
+                    }
+                }
+                if d.p != p0 {
+                    rep.count("C14.precision_changed");
+                }
+            } else {
+                let p = d.p;
+                let b = g.b(rng, p);
+                let cdf = gen_cdf(rng, p);
+                script.push(Rec::Dec { p, b, cdf: cdf.clone() });
+                rep.eval("C10");
+                rep.eval("C20");
+                match guarded(|| C::dec(&mut d, b, &cdf).unwrap()) {
+                    Ok(o) if o == "out_of_data" => {
+                        ran_out = true;
+                        break;
+                    }
+                    Ok(o) if parse_hex(&o).is_some() => syms.push(parse_hex(&o).unwrap() as usize),
+                    other => {
+                        let what = match other {
+                            Ok(o) => o,
+                            Err(class) => class.to_string(),
+                        };
+                        let line = c14_line::<C>(p0, from_bin, &data, &script);
+                        rep.eval("C14");
+                        rep.fail("C14", format!("{} => decoding symbol {} answered {} instead of the symbol its model assigns to chunk {} of the data", line, syms.len(), what, syms.len()));
+                        rep.fail("C10", format!("{} => {}", line, what));
+                        return;
+                    }
+                }
+            }
+        }
+    }
+    let line = c14_line::<C>(p0, from_bin, &data, &script);
+    let decs: Vec<(u32, u32, Vec<u128>)> = script
+        .iter()
+        .filter_map(|r| match r {
+            Rec::Dec { p, b, cdf } => Some((*p, *b, cdf.clone())),
+            _ => None,
+        })
+        .collect();
+    let dec_precs: Vec<u32> = decs.iter().map(|d| d.0).collect();
+    // ---- (a) symbol i = model i applied to chunk i, chunks from the data alone
+    let stack = unwords(&d0.comp);
+    let chunks = reference_chunks(stack.len(), w, &dec_precs);
+    rep.eval("C14");
+    if chunks.iter().zip(&dec_precs).any(|(c, &p)| c.len() > p as usize) || dec_precs.iter().any(|&p| 2 * p <= w) {
+        rep.count("C14.more_than_p_bits_buffered");
+    }
+    let expect_syms: Vec<usize> = chunks.iter().zip(&decs).map(|(c, (_, _, cdf))| find(cdf, chunk_value(&stack, c))).collect();
+    let expect_out = chunks.len() < decs.len();
+    if syms != expect_syms || ran_out != expect_out {
+        let first = syms.iter().zip(&expect_syms).position(|(a, b)| a != b).unwrap_or(syms.len().min(expect_syms.len()));
+        rep.fail(
+            "C14",
+            format!(
+                "{} => symbols {:?} ran_out {} but the models applied to the chunks of the data give {:?} ran_out {} (first difference at symbol {}, chunk value {:x})",
+                line,
+                syms,
+                ran_out,
+                expect_syms,
+                expect_out,
+                first,
+                chunks.get(first).map_or(0, |c| chunk_value(&stack, c))
+            ),
+        );
+        return;
+    }
+    if ran_out {
+        rep.count("C14.ran_out");
+    }
+    rep.sample("C14", || line.clone());
+    if chunks.is_empty() {
+        return;
+    }
+    let same_except = |a: &[usize], b: &[usize], j: Option<usize>| -> bool {
+        a.len() == b.len() && a.iter().zip(b).enumerate().all(|(i, (x, y))| Some(i) == j || x == y)
+    };
+    let j = rng.below(chunks.len() as u128) as usize;
+    // ---- (c) another model at position j
+    {
+        let mut script2 = script.clone();
+        let mut k = 0;
+        let newcdf = gen_cdf(rng, dec_precs[j]);
+        for r in script2.iter_mut() {
+            if let Rec::Dec { cdf, .. } = r {
+                if k == j {
+                    *cdf = newcdf.clone();
+                }
+                k += 1;
+            }
+        }
+        rep.eval("C14");
+        match c14_rerun::<C>(&d0, &script2, rep) {
+            Err(e) if e == "diverged" => rep.count("C14.skipped_precision_change_diverged"),
+            Err(e) => rep.fail("C14", format!("{} => {} after replacing model {}", c14_line::<C>(p0, from_bin, &data, &script2), e, j)),
+            Ok((syms2, out2)) => {
+                if out2 != ran_out || !same_except(&syms2, &syms, Some(j)) || syms2[j] != find(&newcdf, chunk_value(&stack, &chunks[j])) {
+                    rep.fail("C14", format!("{} => replacing model {} changed symbols {:?} -> {:?} / ran_out {} -> {}", c14_line::<C>(p0, from_bin, &data, &script2), j, syms, syms2, ran_out, out2));
+                }
+            }
+        }
+    }
+    // ---- (b) flipping bits: inside chunk j / outside every consumed chunk
+    let rebuild = |data2: &[u128]| -> Option<Dyn<C::W, C::S>> { C::ctor(kind, p0, words::<C::W>(data2)).unwrap().ok() };
+    {
+        let mut data2 = data.clone();
+        let mut flipped = 0;
+        for &(wi, bi) in &chunks[j] {
+            if rng.chance(1, 2) {
+                data2[wi] ^= 1 << bi;
+                flipped += 1;
+            }
+        }
+        if flipped == 0 {
+            let (wi, bi) = chunks[j][0];
+            data2[wi] ^= 1 << bi;
+        }
+        rep.eval("C14");
+        let line2 = c14_line::<C>(p0, from_bin, &data2, &script);
+        match rebuild(&data2) {
+            None => rep.fail("C14", format!("{} => constructor fails after flipping bits of chunk {} (original data {})", line2, j, show_list(data.clone()))),
+            Some(d2) => match c14_rerun::<C>(&d2, &script, rep) {
+                Err(e) if e == "diverged" => rep.count("C14.skipped_precision_change_diverged"),
+                Err(e) => rep.fail("C14", format!("{} => {} after flipping bits of chunk {} (original data {})", line2, e, j, show_list(data.clone()))),
+                Ok((syms2, out2)) => {
+                    let stack2 = unwords(&d2.comp);
+                    if out2 != ran_out || !same_except(&syms2, &syms, Some(j)) || syms2[j] != find(&decs[j].2, chunk_value(&stack2, &chunks[j])) {
+                        rep.fail("C14", format!("{} => flipping bits of chunk {} only (original data {}) changed symbols {:?} -> {:?} / ran_out {} -> {}", line2, j, show_list(data.clone()), syms, syms2, ran_out, out2));
+                    }
+                }
+            },
+        }
+    }
+    {
+        let used: std::collections::BTreeSet<(usize, u32)> = chunks.iter().flatten().copied().collect();
+        let free: Vec<(usize, u32)> = (0..stack.len()).flat_map(|wi| (0..w).map(move |bi| (wi, bi))).filter(|pos| !used.contains(pos)).collect();
+        if !free.is_empty() {
+            let mut data2 = data.clone();
+            for _ in 0..1 + rng.next() % 3 {
+                let (wi, bi) = *rng.pick(&free);
+                data2[wi] ^= 1 << bi;
+            }
+            if data2 != data {
+                rep.eval("C14");
+                rep.count("C14.flip_unconsumed_bits");
+                let line2 = c14_line::<C>(p0, from_bin, &data2, &script);
+                match rebuild(&data2) {
+                    None => rep.fail("C14", format!("{} => constructor fails after flipping unconsumed bits (original data {})", line2, show_list(data.clone()))),
+                    Some(d2) => match c14_rerun::<C>(&d2, &script, rep) {
+                        Err(e) if e == "diverged" => rep.count("C14.skipped_precision_change_diverged"),
+                        Err(e) => rep.fail("C14", format!("{} => {} after flipping bits that belong to no consumed chunk (original data {})", line2, e, show_list(data.clone()))),
+                        Ok((syms2, out2)) => {
+                            if out2 != ran_out || syms2 != syms {
+                                rep.fail("C14", format!("{} => flipping bits that belong to no consumed chunk (original data {}) changed symbols {:?} -> {:?} / ran_out {} -> {}", line2, show_list(data.clone()), syms, syms2, ran_out, out2));
+                            }
+                        }
+                    },
+                }
+            }
+        }
+    }
 }
 
 fn oracle_combo<C: ChainPrec>(rng: &mut Rng, bps: &[(u32, Vec<u32>)], iters: usize, rep: &mut Report) {
@@ -1999,116 +2290,8 @@ fn oracle_combo<C: ChainPrec>(rng: &mut Rng, bps: &[(u32, Vec<u32>)], iters: usi
         rep.sample("C13", || format!("{} | intorem | reimport 1 | undoall | final {}", desc, if from_bin { "bin" } else { "comp" }));
         rep.count(&format!("C13.hist.{}x{}", w, s));
 
-        // ---------------- C14 (+ C10): locality ----------------
-        let p = *rng.pick(&precs);
-        let n = (rng.next() % 24) as usize;
-        let head_words = ((s - w - p) + w - 1) / w + (!from_bin) as u32;
-        let need = head_words as usize + (n * p as usize + w as usize - 1) / w as usize;
-        let len = match rng.next() % 4 {
-            0 => (rng.below(need as u128 + 2)) as usize,
-            _ => need + (rng.next() % 3) as usize,
-        };
-        let mut data: Vec<u128> = (0..len).map(|_| if style == 0 { 0 } else { rng.below(pow2(w)) }).collect();
-        if !from_bin {
-            match data.last_mut() {
-                Some(l) => {
-                    if *l == 0 {
-                        *l = 1;
-                    }
-                }
-                None => data.push(1),
-            }
-        }
-        let d0 = match C::ctor(if from_bin { 0 } else { 1 }, p, words::<C::W>(&data)).unwrap() {
-            Ok(d) => d,
-            Err(()) => continue,
-        };
-        let models: Vec<(u32, Vec<u128>)> = (0..n).map(|_| (g.b(rng, p), gen_cdf(rng, p))).collect();
-        let desc14 = |data: &[u128], models: &[(u32, Vec<u128>)]| {
-            let mut t = describe::<C>(p, from_bin, data);
-            for (b, cdf) in models {
-                t.push_str(&format!(" | dec {:x} {:x} {}", p, b, show_list(cdf.clone())));
-            }
-            t
-        };
-        // decode all; `Err(i)` = ran out of data at index i
-        let run = |start: &Dyn<C::W, C::S>, models: &[(u32, Vec<u128>)]| -> Result<(Vec<usize>, Option<usize>), String> {
-            let mut d = start.clone();
-            let mut syms = Vec::new();
-            for (i, (b, cdf)) in models.iter().enumerate() {
-                match guarded(|| C::dec(&mut d, *b, cdf).unwrap()) {
-                    Err(class) => return Err(class.to_string()),
-                    Ok(o) if o == "out_of_data" => return Ok((syms, Some(i))),
-                    Ok(o) => match parse_hex(&o) {
-                        Some(x) => syms.push(x as usize),
-                        None => return Err(o),
-                    },
-                }
-            }
-            Ok((syms, None))
-        };
-        let base = match run(&d0, &models) {
-            Ok(x) => x,
-            Err(e) => {
-                rep.fail("C10", format!("{} => {}", desc14(&data, &models), e));
-                continue;
-            }
-        };
-        let stack = unwords(&d0.comp);
-        let chunks = reference_chunks(stack.len(), w, p, n);
-        rep.eval("C14");
-        let expect_end = if chunks.len() < n { Some(chunks.len()) } else { None };
-        let expect_syms: Vec<usize> = chunks.iter().zip(&models).map(|(c, (_, cdf))| find(cdf, chunk_value(&stack, c))).collect();
-        if base.1 != expect_end || base.0 != expect_syms {
-            rep.fail("C14", format!("{} => symbols {:?} end {:?}, but chunk-wise decoding gives {:?} end {:?}", desc14(&data, &models), base.0, base.1, expect_syms, expect_end));
-            continue;
-        }
-        if base.1.is_some() {
-            rep.count("C14.ran_out");
-        }
-        if !chunks.is_empty() {
-            let j = rng.below(chunks.len() as u128) as usize;
-            // (a) another model at position j
-            let mut models2 = models.clone();
-            models2[j].1 = gen_cdf(rng, p);
-            rep.eval("C14");
-            match run(&d0, &models2) {
-                Ok((syms, end)) => {
-                    let same_elsewhere = syms.len() == base.0.len() && syms.iter().zip(&base.0).enumerate().all(|(i, (a, b))| i == j || a == b);
-                    if end != base.1 || !same_elsewhere || syms[j] != find(&models2[j].1, chunk_value(&stack, &chunks[j])) {
-                        rep.fail("C14", format!("{} => replacing model {} changed symbols {:?} -> {:?} / end {:?} -> {:?}", desc14(&data, &models2), j, base.0, syms, base.1, end));
-                    }
-                }
-                Err(e) => rep.fail("C10", format!("{} => {}", desc14(&data, &models2), e)),
-            }
-            // (b) flip bits inside chunk j of the original data and rebuild the coder
-            let mut data2 = data.clone();
-            let mut flipped = 0;
-            for &(wi, bi) in &chunks[j] {
-                if rng.chance(1, 2) {
-                    data2[wi] ^= 1 << bi;
-                    flipped += 1;
-                }
-            }
-            if flipped == 0 {
-                let (wi, bi) = chunks[j][0];
-                data2[wi] ^= 1 << bi;
-            }
-            rep.eval("C14");
-            match C::ctor(if from_bin { 0 } else { 1 }, p, words::<C::W>(&data2)).unwrap() {
-                Err(()) => rep.fail("C14", format!("{} => constructor fails after flipping bits of chunk {}", desc14(&data2, &models), j)),
-                Ok(d2) => match run(&d2, &models) {
-                    Ok((syms, end)) => {
-                        let same_elsewhere = syms.len() == base.0.len() && syms.iter().zip(&base.0).enumerate().all(|(i, (a, b))| i == j || a == b);
-                        if end != base.1 || !same_elsewhere {
-                            rep.fail("C14", format!("{} => flipping bits of chunk {} (orig data {}) changed symbols {:?} -> {:?} / end {:?} -> {:?}", desc14(&data2, &models), j, show_list(data.clone()), base.0, syms, base.1, end));
-                        }
-                    }
-                    Err(e) => rep.fail("C10", format!("{} => {}", desc14(&data2, &models), e)),
-                },
-            }
-        }
-        rep.sample("C14", || desc14(&data, &models));
+        // ---------------- C14 (+ C10, C20): locality ----------------
+        oracle_locality::<C>(rng, bps, rep);
     }
 }
 
